@@ -101,7 +101,7 @@ def focus(draw, tier):
 
 def parts(tier):
     return [
-        Part("thresholds", strategy=lambda t: focus(t), check=check, quick=(2, 200), thorough=(4, 3000)),
-        Part("small", strategy=lambda t: strat(t, "small"), check=check, quick=(6, 150), thorough=(12, 2500)),
-        Part("large", strategy=lambda t: strat(t, "large"), check=check, quick=(2, 100), thorough=(4, 1500)),
+        Part("thresholds", strategy=lambda t: focus(t), check=check, quick=(2, 400), thorough=(4, 3000)),
+        Part("small", strategy=lambda t: strat(t, "small"), check=check, quick=(6, 350), thorough=(12, 2500)),
+        Part("large", strategy=lambda t: strat(t, "large"), check=check, quick=(2, 250), thorough=(4, 1500)),
     ]
